@@ -806,7 +806,7 @@ class FixedArray
             : ReadOnlyMaskedAccess (array), _ptr (array._ptr)
         {
             if (!array.writable())
-                std::invalid_argument ("Fixed array is read-only. WritableMaskedAccess not granted.");
+                throw std::invalid_argument ("Fixed array is read-only. WritableMaskedAccess not granted.");
         }
 
         WritableMaskedAccess (const WritableMaskedAccess& other)
